@@ -5,6 +5,7 @@ raises NormError (=> the check is undecided, never a violation).
 
 Each rule application is logged as (rule id, count).
 """
+import re
 from .rtok import Tok, tokenize, match_close, TokError
 
 CONSTS = {"MASK", "LIMBS", "BITS", "BYTES", "SHOULD_MASK", "ZERO", "ONE", "MAX", "MIN"}
@@ -338,8 +339,17 @@ class Normaliser:
         ty = toks[i + 3:k]
         expr = toks[k + 1:-1]
         assert toks[-1].text == ";"
-        self.note("N6-const-def")
-        head = mk("pub fn")
+        if self.vis == "spec":
+            # N18: a constant whose VALUE is the object of a proof becomes a transparent spec function with the same initialiser
+            self.note("N18-const-as-spec")
+            head = mk("pub open spec fn")
+            # rustc infers an unsuffixed leading literal of the initialiser at the declared type; spec mode would not
+            INTS = ("u8", "u16", "u32", "u64", "u128", "usize", "i8", "i16", "i32", "i64", "i128", "isize")
+            if len(ty) == 1 and ty[0].text in INTS and expr and expr[0].kind == "num" and re.fullmatch(r"[0-9][0-9_]*|0[xob][0-9a-fA-F_]+", expr[0].text):
+                expr = [Tok("num", expr[0].text + ty[0].text, expr[0].ws, expr[0].line)] + list(expr[1:])
+        else:
+            self.note("N6-const-def")
+            head = mk("pub fn")
         head[0].ws = toks[0].ws
         return head + [Tok("id", name.text, " ", name.line)] + mk("( ) ->") + ty + mk("{") + expr + mk("}")
 
